@@ -29,7 +29,7 @@ def system(rng):
     ecps = [gen.rand_ecp(rng, 1, p0, nper=(1, 1), amin=0.4, amax=3.0), gen.rand_ecp(rng, 2, p2, nper=(1, 1), amin=0.4, amax=3.0)]
     extra = {"mshell": [2], "mecp": [1]}
     return {"id": "sys", "extra": extra, "shells": shells, "ecps": ecps,
-            "_disp": [(1, 0.11, -0.07, 0.05), (2, -0.13, 0.04, 0.09), (3, 0.06, 0.12, -0.1)]}
+            "_disp": [(1, 0.11, -0.07, 0.05), (2, 31.0, 17.0, -24.0), (3, 0.06, 0.12, -0.1)]}      # version 2 moves beyond every screening radius
 
 
 def write_system(path, s):
